@@ -1,14 +1,17 @@
 (** C19 — damaged cross-reference data is reconstructed faithfully.
-    Only statements here; proofs live in theories/C19/Proofs.v.
+    Only statements here; proofs live in theories/C19/{Proofs,Chunk,ChunkLong,ChunkEx,Catalog}.v.
 
-    NOT proved (kept visible):
-      catalog_found : forall d root, wf d = true -> quiet_doc d = true -> cat_hyp d root = true ->
-        option_map (fun r => snd (fst r)) (recover (render d root)) = Some (RFound root).
-      It is checked case by case by the correspondence (bit 2 with cat_hyp = true is a violation);
-      c19_catalog_text_refuted shows what happens outside cat_hyp.
-      scan_finds_all for files larger than one 64 KiB chunk (c19_scan_window_finds_all is the
-      size-independent part; the carry argument across chunk boundaries is tied, not proved). *)
-From OxVerif Require Import Base.Util C09.Model C19.Model C19.Proofs.
+    scan_finds_all is proved for ANY file size and ANY chunk size (c19_scan_file_finds_all); the
+    carry forces one side condition, [long_lines_dead_doc]: every body line longer than the carry
+    cap (1024 bytes, end-of-line excluded) must be dead (no segment of it, cut after an "obj",
+    parses as an object header).  Header lines of a rendered document are at most 17 bytes, so
+    they never meet the cap; on arbitrary files (c19_chunking_invisible) the same condition covers
+    header lines, and c19_long_header_line_missed / c19_long_body_line_refuted show that it is
+    genuine (candidate input class: a line longer than 1024 bytes that straddles a window end and
+    contains header-like text).
+    catalog_found is proved for the modelled stages 4a-4d under [cat_hyp] (c19_catalog_found);
+    stages 4e/4f are not modelled. *)
+From OxVerif Require Import Base.Util C09.Model C19.Model C19.Proofs C19.Chunk C19.ChunkLong C19.ChunkEx C19.Catalog.
 
 (** the whole-file window finds exactly the object headers of the document, at their true offsets
     (any size) — scan_window_for_headers returns them in reverse discovery order here *)
@@ -19,14 +22,126 @@ Check c19_scan_window_finds_all : forall d root, wf d = true -> quiet_doc d = tr
   snd (scan_window (render d root) 0 [] []) = rev (offsets d).
 Print Assumptions c19_scan_window_finds_all.
 
-(** scan_finds_all, for files of at most one chunk: the chunked scan_object_headers returns the
-    true offset table *)
+(** scan_finds_all, for files of at most one chunk (no condition on line lengths): the chunked
+    scan_object_headers returns the true offset table *)
 Theorem c19_scan_file_finds_all_partial : forall d root, wf d = true -> quiet_doc d = true ->
   len (render d root) <= 65536 -> scan_file 65536 (render d root) = offsets d.
 Proof. exact scan_file_render. Qed.
 Check c19_scan_file_finds_all_partial : forall d root, wf d = true -> quiet_doc d = true ->
   len (render d root) <= 65536 -> scan_file 65536 (render d root) = offsets d.
 Print Assumptions c19_scan_file_finds_all_partial.
+
+(** chunking is invisible: on ANY file whose lines longer than the carry cap are dead, the chunked
+    loop (any chunk size, any file size) followed by the stable sort returns what one window over
+    the whole file returns *)
+Theorem c19_chunking_invisible : forall file c, long_lines_dead file = true ->
+  scan_file c file = isort_off (rev (snd (scan_window file 0 [] []))).
+Proof. exact scan_file_whole2. Qed.
+Check c19_chunking_invisible : forall file c, long_lines_dead file = true ->
+  scan_file c file = isort_off (rev (snd (scan_window file 0 [] []))).
+Print Assumptions c19_chunking_invisible.
+
+(** scan_finds_all, any file size, any chunk size: hypotheses on the document only *)
+Theorem c19_scan_file_finds_all : forall d root c, wf d = true -> quiet_doc d = true ->
+  long_lines_dead_doc d = true -> scan_file c (render d root) = offsets d.
+Proof. exact scan_file_finds_all_doc. Qed.
+Check c19_scan_file_finds_all : forall d root c, wf d = true -> quiet_doc d = true ->
+  long_lines_dead_doc d = true -> scan_file c (render d root) = offsets d.
+Print Assumptions c19_scan_file_finds_all.
+
+(** the same with the side condition stated on the file; lines of at most 1024 bytes and lines
+    without the letter 'j' are special cases *)
+Theorem c19_scan_file_finds_all_file : forall d root c, wf d = true -> quiet_doc d = true ->
+  long_lines_dead (render d root) = true -> scan_file c (render d root) = offsets d.
+Proof. exact scan_file_finds_all2. Qed.
+Check c19_scan_file_finds_all_file : forall d root c, wf d = true -> quiet_doc d = true ->
+  long_lines_dead (render d root) = true -> scan_file c (render d root) = offsets d.
+Print Assumptions c19_scan_file_finds_all_file.
+
+Theorem c19_side_condition_special_cases :
+  (forall file, short_lines file = true -> long_lines_dead file = true)
+  /\ (forall file, lines_ok_noj file true = true -> long_lines_dead file = true)
+  /\ (forall d, long_lines_noj_doc d = true -> long_lines_dead_doc d = true)
+  /\ (forall d root, wf d = true -> long_lines_dead_doc d = true -> long_lines_dead (render d root) = true).
+Proof.
+  split; [exact short_lines_dead|]. split; [intros file; apply lines_ok_noj_ok|].
+  split; [exact long_lines_noj_doc_ok | exact render_lines_ok].
+Qed.
+Check c19_side_condition_special_cases :
+  (forall file, short_lines file = true -> long_lines_dead file = true)
+  /\ (forall file, lines_ok_noj file true = true -> long_lines_dead file = true)
+  /\ (forall d, long_lines_noj_doc d = true -> long_lines_dead_doc d = true)
+  /\ (forall d root, wf d = true -> long_lines_dead_doc d = true -> long_lines_dead (render d root) = true).
+Print Assumptions c19_side_condition_special_cases.
+
+(** the side condition is genuine: (a) a header line longer than the carry is missed by the
+    chunked scan although one window finds it; (b) a rendered, well-formed, quiet document of more
+    than one 64 KiB chunk with a body line `x <65550 blanks>1 0 obj` longer than the carry: with the
+    real chunk size the window after the capped carry starts inside that line and reports a second
+    object 1 at offset 64512, which wins: the recovered table sends the catalog into object 2's body *)
+Theorem c19_long_header_line_missed :
+  snd (scan_window F_LONGHDR 0 [] []) = [(1, 0, 0)] /\ scan_file 64 F_LONGHDR = []
+  /\ long_lines_dead F_LONGHDR = false.
+Proof. split; [apply long_header_line_missed|]. split; [apply long_header_line_missed|exact long_header_line_outside]. Qed.
+Check c19_long_header_line_missed :
+  snd (scan_window F_LONGHDR 0 [] []) = [(1, 0, 0)] /\ scan_file 64 F_LONGHDR = []
+  /\ long_lines_dead F_LONGHDR = false.
+Print Assumptions c19_long_header_line_missed.
+
+Theorem c19_long_body_line_refuted :
+  wf D_LONGLINE = true /\ quiet_doc D_LONGLINE = true
+  /\ 65536 < len (render D_LONGLINE 1)
+  /\ offsets D_LONGLINE = [(1, 0, 15); (2, 0, 64)]
+  /\ scan_file 65536 (render D_LONGLINE 1) = [(1, 0, 15); (2, 0, 64); (1, 0, 64512)]
+  /\ tlookup (recover_tbl (render D_LONGLINE 1)) 1 = Some (64512, 0)
+  /\ true_off D_LONGLINE 1 = Some 15.
+Proof. exact long_body_line_refuted. Qed.
+Check c19_long_body_line_refuted :
+  wf D_LONGLINE = true /\ quiet_doc D_LONGLINE = true
+  /\ 65536 < len (render D_LONGLINE 1)
+  /\ offsets D_LONGLINE = [(1, 0, 15); (2, 0, 64)]
+  /\ scan_file 65536 (render D_LONGLINE 1) = [(1, 0, 15); (2, 0, 64); (1, 0, 64512)]
+  /\ tlookup (recover_tbl (render D_LONGLINE 1)) 1 = Some (64512, 0)
+  /\ true_off D_LONGLINE 1 = Some 15.
+Print Assumptions c19_long_body_line_refuted.
+
+(** the hypotheses are satisfiable beyond one chunk (about 70 KB, 2200 short lines, one dead line
+    of 1100 bytes, a string containing "obj") *)
+Example c19_full_nonvacuous :
+  wf D_BIG = true /\ quiet_doc D_BIG = true /\ long_lines_dead_doc D_BIG = true
+  /\ long_lines_dead (render D_BIG 1) = true
+  /\ short_lines (render D_BIG 1) = false /\ 65536 < len (render D_BIG 1)
+  /\ scan_file 65536 (render D_BIG 1) = offsets D_BIG.
+Proof. exact full_nonvacuous. Qed.
+
+(** recovered_table_equals_true_table and the fallback, any file size *)
+Theorem c19_recovered_table_equals_true_table_full : forall d root n, wf d = true -> quiet_doc d = true ->
+  long_lines_dead_doc d = true ->
+  tlookup (recover_tbl (render d root)) n = option_map (fun o => (o, 0)) (true_off d n).
+Proof. exact recovered_table_doc. Qed.
+Check c19_recovered_table_equals_true_table_full : forall d root n, wf d = true -> quiet_doc d = true ->
+  long_lines_dead_doc d = true ->
+  tlookup (recover_tbl (render d root)) n = option_map (fun o => (o, 0)) (true_off d n).
+Print Assumptions c19_recovered_table_equals_true_table_full.
+
+Theorem c19_recovery_faithful_when_primary_fails_full : forall d root attempts n,
+  wf d = true -> quiet_doc d = true -> long_lines_dead_doc d = true -> 0 < attempts ->
+  exists t, table_used None (render d root) attempts = Some t
+            /\ tlookup t n = option_map (fun o => (o, 0)) (true_off d n).
+Proof. exact recovery_faithful_doc. Qed.
+Check c19_recovery_faithful_when_primary_fails_full : forall d root attempts n,
+  wf d = true -> quiet_doc d = true -> long_lines_dead_doc d = true -> 0 < attempts ->
+  exists t, table_used None (render d root) attempts = Some t
+            /\ tlookup t n = option_map (fun o => (o, 0)) (true_off d n).
+Print Assumptions c19_recovery_faithful_when_primary_fails_full.
+
+(** catalog_found: the modelled catalog search (stages 4a-4d) returns the true /Root *)
+Theorem c19_catalog_found : forall d root, wf d = true -> quiet_doc d = true -> cat_hyp d root = true ->
+  option_map (fun r => snd (fst r)) (recover (render d root)) = Some (RFound root).
+Proof. exact catalog_found. Qed.
+Check c19_catalog_found : forall d root, wf d = true -> quiet_doc d = true -> cat_hyp d root = true ->
+  option_map (fun r => snd (fst r)) (recover (render d root)) = Some (RFound root).
+Print Assumptions c19_catalog_found.
 
 (** recovered_table_equals_true_table: every object number resolves to the offset of its
     definition (generation 0), numbers the document does not define resolve to nothing *)
